@@ -5,6 +5,7 @@ Model of the LAFEM vector filters (property C06), core Lean only.
 * `UnitBF`  = `LAFEM::UnitFilterBlocked`   (unit_filter_blocked.hpp, arch/unit_filter_blocked_generic.hpp)
 * `SlipF`   = `LAFEM::SlipFilter`          (slip_filter.hpp, arch/slip_filter_generic.hpp)
 * `MeanF`   = `LAFEM::MeanFilter`          (mean_filter.hpp),  `MeanBF` = `LAFEM::MeanFilterBlocked`
+              (mean_filter_blocked.hpp as of the fix 45e34adcb: every volume component is tested)
 * `Flt`     = the composition tree: `FilterChain` / `FilterSequence` (members applied in order to the same
               vector) and `TupleFilter` / `PowerFilter` (member `k` applied to component `k`), `NoneFilter`.
 
@@ -292,22 +293,25 @@ structure MeanBF (α : Type) where
 namespace MeanBF
 variable {α : Type} [Zero α] [One α] [Add α] [Mul α] [Sub α] [Neg α] [Div α] [DecidableEq α]
 
-/-- `XASSERT(volume.norm_euclid_sqr() > eps)` -/
-def volOk (gtEps : α → Bool) (vol : List α) : Bool := gtEps (dotL vol vol)
+/-- `for(i < BlockSize_) XASSERTM(Math::abs(_volume[i]) > Math::eps<DataType>(), ...)`: every component is tested
+    (`absGtEps x` is `|x| > eps`); so a successfully constructed non-empty filter has no vanishing volume component -/
+def volOk (absGtEps : α → Bool) (bs : Nat) (vol : List α) : Bool :=
+  (List.range bs).all fun i => absGtEps (vol.getD i 0)
 
-def mk3 (gtEps : α → Bool) (bs : Nat) (prim dual sol : List α) : Option (MeanBF α) :=
+def mk3 (absGtEps : α → Bool) (bs : Nat) (prim dual sol : List α) : Option (MeanBF α) :=
   if prim.length != dual.length then none
   else
     let vol := dotBlocked bs prim dual
-    if !prim.isEmpty && !volOk gtEps vol then none
+    if !prim.isEmpty && !volOk absGtEps bs vol then none
     else some { bs := bs, prim := prim, dual := dual, vol := vol, sol := sol }
 
-def mk4 (gtEps : α → Bool) (bs : Nat) (prim dual sol vol : List α) : Option (MeanBF α) :=
-  if !prim.isEmpty && !volOk gtEps vol then none
+def mk4 (absGtEps : α → Bool) (bs : Nat) (prim dual sol vol : List α) : Option (MeanBF α) :=
+  if !prim.isEmpty && !volOk absGtEps bs vol then none
   else some { bs := bs, prim := prim, dual := dual, vol := vol, sol := sol }
 
-/-- `tmp = vector.dot_blocked(w); tmp(i) = a i tmp(i); vector.axpy_blocked(x, tmp)`; `divides = true` when the
-    loop divides by `volume(i)` (a zero component divides by zero although the constructor accepted it) -/
+/-- `tmp = vector.dot_blocked(w); tmp(i) = a i tmp(i); vector.axpy_blocked(x, tmp)`.  The loop divides by
+    `volume(i)`; the guard (division by zero = `none`) cannot fire for a filter built by `mk3` / `mk4`
+    (`C06.meanB_constructed_divisions_defined`) -/
 def dotAxpy (f : MeanBF α) (v w x : List α) (a : Nat → α → α) : Option (List α) :=
   if v.length != w.length then none
   else if f.vol.any (fun c => c = 0) then none
